@@ -64,6 +64,9 @@ func (f *Revappend) Call(s *slip.Scope, args slip.List, depth int) slip.Object {
 	case slip.List:
 		list = append(list, ta...)
 	default:
+		if len(list) == 0 {
+			return ta
+		}
 		list = append(list, slip.Tail{Value: ta})
 	}
 	return list
